@@ -177,6 +177,8 @@ def prop(case, r):
         return
     if interleaved or split_seen:
         r.nontrivial(case)
+    if len({json.dumps(c, sort_keys=True, default=str) for c in cfgs}) > 1 and any(sum(c[f] != cfgs[0][f] for f in cfgs[0] if f in c) <= 2 and c != cfgs[0] for c in cfgs[1:]):
+        r.label('near-twin-controllers')
     reqs = []
     for item in runs:
         reqs.append([item[2], item[3], item[4]])
@@ -222,7 +224,7 @@ def config(draw, allow_adaptive=True):
     levels = draw(st.sampled_from([1, 1, 2]))
     cfg = {
         'sweeper': draw(st.sampled_from(['implicit', 'implicit', 'imex'])), 'A': S.shape_matrix(draw(S.mat(n)), 'stable'), 'A2': S.shape_matrix(draw(S.mat(n)), 'rot'),
-        'g': draw(S.forcing(n)), 'u0': draw(S.vec(n)), 'num_nodes': max(2, ns['num_nodes']) if levels == 2 else ns['num_nodes'], 'quad_type': ns['quad_type'],
+        'g': draw(S.forcing(n)), 'u0': draw(S.vec(n)), 'num_nodes': max(2, ns['num_nodes']) if levels == 2 else ns['num_nodes'], 'quad_type': ns['quad_type'], 'node_type': ns['node_type'],
         'QI': draw(st.sampled_from(['IE', 'LU', 'MIN-SR-S', 'MIN-SR-FLEX', 'MIN-SR-FLEX', 'FB'])), 'initial_guess': draw(st.sampled_from(['spread', 'spread', 'copy', 'zero', 'random'])),
         'dt': draw(st.sampled_from([0.125, 0.25, 0.0625, 0.1, 0.3])), 'restol': draw(st.sampled_from([-1.0, 1e-8])), 'maxiter': draw(st.integers(1, 4)), 'levels': levels,
         'num_procs': draw(st.integers(1, 3)), 'jac': draw(st.booleans()), 'predict': draw(st.sampled_from([None, 'fine_only', 'pfasst_burnin'])) if levels == 2 else None,
@@ -243,6 +245,26 @@ def config(draw, allow_adaptive=True):
 def cases(draw):
     ncfg = draw(st.integers(1, 3))
     cfgs = [draw(config(allow_adaptive=(i > 0))) for i in range(ncfg)]
+    # near twins: controllers living in one process that differ in one or two sweeper/level entries only (anything cached per process
+    # under a key that leaves such an entry out makes the later controller pick up the earlier one's data; added after seed C19-3)
+    for i in range(1, ncfg):
+        if draw(st.booleans()):
+            twin = dict(cfgs[0])
+            for field in draw(st.lists(st.sampled_from(['node_type', 'node_type', 'QI', 'dt', 'initial_guess', 'quad_type', 'sweeper']), min_size=1, max_size=2, unique=True)):
+                if field == 'node_type':
+                    twin[field] = draw(st.sampled_from([t for t in S.NODE_TYPES if t != twin.get('node_type')]))
+                elif field == 'QI':
+                    twin[field] = draw(st.sampled_from(['IE', 'LU', 'MIN-SR-S', 'MIN-SR-FLEX', 'FB']))
+                elif field == 'dt':
+                    twin[field] = draw(st.sampled_from([0.125, 0.25, 0.0625, 0.1, 0.3]))
+                elif field == 'initial_guess':
+                    twin[field] = draw(st.sampled_from(['spread', 'copy', 'zero']))
+                elif field == 'quad_type':
+                    twin[field] = 'LOBATTO' if twin['quad_type'] == 'RADAU-RIGHT' else 'RADAU-RIGHT'
+                    twin['num_nodes'] = max(2, twin['num_nodes'])
+                else:
+                    twin[field] = 'imex' if twin['sweeper'] == 'implicit' else 'implicit'
+            cfgs[i] = twin
     prog = []
     for _ in range(draw(st.integers(2, 7))):
         kind = draw(st.sampled_from(['new', 'run', 'run', 'run', 'split']))
